@@ -46,6 +46,8 @@ def run(tier):
         # scripted windows with a file / directory clash between what A sends and what B commits meanwhile
         race_jobs += [(vlib.seed() * 77 + 50_000 + k, form, "stage", sc) for k, sc in enumerate(hs.CLASH_RACES) for form in ("path", "host")]
         race_jobs += [(vlib.seed() * 77 + 60_000 + k, form, "stage", sc) for k, sc in enumerate(hs.EMPTY_RACES) for form in ("path", "host")]
+        race_jobs += [(vlib.seed() * 77 + 70_000 + 10 * k + j, form, hold, sc) for k, sc in enumerate(hs.SAMELEN_RACES)
+                      for j, (form, hold) in enumerate([("path", "stage"), ("host", "stage"), ("path", "flock"), ("host", "flock")])]
         recs = hs.run_all(copia, shim, SHIMDIR, os.path.join(work, "x"), hexes, hist_jobs, race_jobs,
                           large=(3000, 13000) if tier == "quick" else (3000, 9000, 13000, 40000))
         log(f"[C13] large trees: " + ", ".join(f"{x['n']} files -> second run exit {x['second']['exit']}" for x in recs if x["kind"] == "large"))
